@@ -199,6 +199,10 @@ TARGETS = {
     "member": "var o = {p: A}; R = (o.p OP B); [R, o.p]",
     "element": "var o = {}; var k = 'k'; o[k] = A; R = (o[k] OP B); [R, o[k]]",
     "array": "var o = [A]; R = (o[0] OP B); [R, o[0]]",
+    "free": "(function(){ var x = A; function g(){ var r = (x OP B); return [r, x]; } return g(); })()",
+    "free2": "(function(){ var x = A; function m(){ return function(){ var r = (x OP B); return r; }; } var r = m()(); return [r, x]; })()",
+    "param": "(function(x){ var r = (x OP B); return [r, x]; })(A)",
+    "arrow-free": "(function(){ var x = A; var g = () => { var r = (x OP B); return [r, x]; }; return g(); })()",
 }
 UPDATES = {
     "global": "x = A; R = (PRE x POST); [R, x]",
@@ -207,6 +211,10 @@ UPDATES = {
     "member": "var o = {p: A}; R = (PRE o.p POST); [R, o.p]",
     "element": "var o = {}; var k = 'k'; o[k] = A; R = (PRE o[k] POST); [R, o[k]]",
     "array": "var o = [A]; R = (PRE o[0] POST); [R, o[0]]",
+    "free": "(function(){ var x = A; function g(){ var r = (PRE x POST); return [r, x]; } return g(); })()",
+    "free2": "(function(){ var x = A; function m(){ return function(){ var r = (PRE x POST); return r; }; } var r = m()(); return [r, x]; })()",
+    "param": "(function(x){ var r = (PRE x POST); return [r, x]; })(A)",
+    "arrow-free": "(function(){ var x = A; var g = () => { var r = (PRE x POST); return [r, x]; }; return g(); })()",
 }
 SMALL = [0, 1, -1, 7, 2 ** 31, 2 ** 53, NAN, INF, -0.0, 0.5, -2.5, 1e21, "", "3", "a", " 12 ", True, NULL, UNDEF]
 
